@@ -8,6 +8,7 @@ mod cap;
 mod cli;
 mod dbg;
 mod edit;
+mod cmd;
 mod prng;
 mod progs;
 mod run;
@@ -100,6 +101,7 @@ fn main() {
         "C07" => cli::run_c07(&o),
         "C08" => cli::run_c08(&o),
         "C20" => edit::run(&o),
+        "C14" => cmd::run(&o),
         other => {
             eprintln!("unknown property {other}");
             std::process::exit(2);
